@@ -284,7 +284,11 @@ impl Linker {
 
         let mut layout_rules_builder = LayoutRulesBuilder::default();
 
-        let auxiliary = input_data::AuxiliaryFiles::new(args, &self.inputs_arena)?;
+        let auxiliary = input_data::AuxiliaryFiles::new(
+            args,
+            &self.inputs_arena,
+            &mut file_loader.loaded_files,
+        )?;
 
         let mut symbol_db = symbol_db::SymbolDb::new(args, output_kind, &auxiliary, &self.herd)?;
         let mut per_symbol_flags = PerSymbolFlags::new();
